@@ -145,3 +145,27 @@ class Oracle:
         self.prefix.append(d)
         self.pos += 1
         return d
+
+
+_HQ = {}
+
+
+def has_quant(t):
+    k = t.get_id()
+    if k in _HQ:
+        return _HQ[k]
+    r = False
+    todo = [t]
+    seen = set()
+    while todo:
+        x = todo.pop()
+        i = x.get_id()
+        if i in seen:
+            continue
+        seen.add(i)
+        if z3.is_quantifier(x):
+            r = True
+            break
+        todo.extend(x.children())
+    _HQ[k] = r
+    return r
